@@ -7,7 +7,7 @@ From NDN Require Import Base.Prelude Base.Utf8 Model.TlvVar Model.Name Model.Tlv
   Proofs.BytesLemmas Proofs.TlvVarProofs Proofs.NameWire Proofs.TlvSplit Proofs.TlvAssign Proofs.TlvRoundtrip
   Proofs.TlvRoundtrip2 Proofs.TlvMore Proofs.PacketDecode Proofs.PacketRoundtrip Proofs.CertProofs.
 Local Open Scope N_scope.
-Set Default Timeout 120.
+Set Default Timeout 900.
 
 Arguments N.pow : simpl never.
 Arguments N.mul : simpl never.
